@@ -12,10 +12,11 @@ def Ev.initN : Ev → Option Nat
   | _ => none
 
 /-- plain initialisation of a log record (constructor of `zombie_list_node`: `zombie_node`, and the
-non-atomic initial values of `next` / `owner`) -/
+non-atomic initial values of `next` / `owner`), and the CAS that publishes it -/
 def Ev.initR : Ev → Option Nat
   | .conR r _ _ => some r
   | .pstZn r _ => some r
+  | .cas _ _ (some r) true _ => some r
   | _ => none
 
 /-- where a reclaimer's cursor goes next -/
